@@ -30,7 +30,10 @@ def make_ds(ts):
     return ds
 
 
-def run(ts, chunked):
+ALL_TS = None
+
+
+def run(ts, chunked, every_syntax_its_own_context=False):
     _config.STORE_RECV_CHUNKED_DATASET = chunked
     seen = {}
 
@@ -47,12 +50,13 @@ def run(ts, chunked):
                 seen["file"] = e
         return 0x0000
     scp = AE()
-    scp.add_supported_context(CTImageStorage, [ts])
+    scp.add_supported_context(CTImageStorage, ALL_TS if every_syntax_its_own_context else [ts])
     srv = scp.start_server(("127.0.0.1", 0), block=False, evt_handlers=[(evt.EVT_C_STORE, handle)])
     port = srv.socket.getsockname()[1]
     try:
         scu = AE()
-        scu.add_requested_context(CTImageStorage, [ts])
+        for t in (ALL_TS if every_syntax_its_own_context else [ts]):
+            scu.add_requested_context(CTImageStorage, [t])      # one presentation context per transfer syntax
         assoc = scu.associate("127.0.0.1", port)
         ds = make_ds(ts)
         st = assoc.send_c_store(ds)
@@ -104,6 +108,31 @@ if "bounded-native" in ob or "dsutils" in ob or ob.endswith("cross-check"):
         done(True, **_bad)
     if "bounded-native" in ob:
         done(False, note="decode(encode(ds)) == ds on 4 transfer syntaxes x 4 data sets through the real pydicom codec and zlib")
+ALL_TS = [ExplicitVRLittleEndian, ExplicitVRBigEndian, DeflatedExplicitVRLittleEndian, ImplicitVRLittleEndian]
+if "decode_msg" in ob or ob.endswith("cross-check"):
+    bad = None
+    # the same SOP class accepted in several contexts with different transfer syntaxes: the received file must name the syntax
+    # of the context the data set arrived on
+    from pydicom import dcmread
+    from io import BytesIO as _B
+    for ts in ALL_TS:
+        seen, want, ds = run(ts, True, every_syntax_its_own_context=True)
+        f = seen.get("file")
+        try:
+            got_ts = dcmread(_B(f), stop_before_pixels=True, force=True).file_meta.TransferSyntaxUID if isinstance(f, bytes) else repr(f)
+        except Exception as e:
+            got_ts = repr(e)
+        dec = seen.get("decoded")
+        same = not isinstance(dec, Exception) and dec is not None and dec.get("PatientName") == ds.PatientName and dec.get("PixelData") == ds.PixelData
+        if got_ts != ts or not same:
+            bad = dict(input={"chunked receive": True, "presentation contexts": "one per transfer syntax for the same SOP class", "sent with": ts.name},
+                       observed={"Transfer Syntax UID of the received file": str(getattr(got_ts, "name", got_ts)), "event.dataset equals what was sent": same},
+                       expected={"Transfer Syntax UID of the received file": ts.name, "event.dataset equals what was sent": True})
+            break
+    if bad:
+        done(True, **bad)
+    if "decode_msg" in ob:
+        done(False, note="chunked receive: the received file names the transfer syntax of the context the data set arrived on (4 contexts for one SOP class)")
 bad = None
 for ts in (ImplicitVRLittleEndian, ExplicitVRLittleEndian, ExplicitVRBigEndian, DeflatedExplicitVRLittleEndian):
     for chunked in (False, True):
